@@ -321,6 +321,65 @@ def main():
         put("layout", lname, lambda text=text, fname=fname, what=what: hash_layout(text, fname, what),
             "%s: arguments fed to each hash object of `%s`, in source order" % (what, fname))
 
+    # thin wrappers the model defines as plain delegation: the body of each is listed (whitespace removed) so that the obligation
+    # "facade method = the half's method on the half it owns", "every constructor = new", "the three expansions hash (name, key,
+    # client seed, server seed) with the seeds in these argument positions" is about what the source says now
+    def impl_block(text, header):
+        m = re.search(header, text)
+        if not m:
+            die("impl block %s not found" % header)
+        i = text.index("{", m.end() - 1)
+        depth = 0
+        for j in range(i, len(text)):
+            if text[j] == "{": depth += 1
+            elif text[j] == "}":
+                depth -= 1
+                if depth == 0:
+                    return text[i:j + 1]
+        die("unbalanced impl block")
+    def bodies(text, header, names, what):
+        blk = impl_block(text, header)
+        out = []
+        for n in names:
+            try:
+                out.append("%s: %s" % (n, re.sub(r"\s+", "", fn_body(blk, n, what))))
+            except Missing:
+                out.append("%s: <absent>" % n)
+        return out
+    FACADE = ["encrypt", "write_encrypted_server_header", "write_encrypted_client_header", "encrypt_server_header", "encrypt_client_header",
+              "decrypt", "read_and_decrypt_server_header", "read_and_decrypt_client_header", "decrypt_server_header", "decrypt_client_header", "split"]
+    tbm = src("src/tbc_header/mod.rs")
+    def layout_put(name, thunk, origin):
+        put("layout", name, lambda: [thunk()], origin)
+    layout_put("facadeBodiesVanilla", lambda: bodies(van, r"impl\s+HeaderCrypto\s*\{", FACADE, "vanilla_header/mod.rs"), "vanilla_header/mod.rs: bodies of the HeaderCrypto facade methods")
+    layout_put("facadeBodiesTbc", lambda: bodies(tbm, r"impl\s+HeaderCrypto\s*\{", FACADE, "tbc_header/mod.rs"), "tbc_header/mod.rs: bodies of the HeaderCrypto facade methods")
+    layout_put("facadeBodiesWrathClient", lambda: bodies(wm, r"impl\s+ClientCrypto\s*\{", ["encrypt", "write_encrypted_client_header", "encrypt_client_header", "decrypt",
+                "attempt_decrypt_server_header", "decrypt_large_server_header", "read_and_decrypt_server_header", "split"], "wrath_header/mod.rs"), "wrath_header/mod.rs: bodies of the ClientCrypto facade methods")
+    layout_put("facadeBodiesWrathServer", lambda: bodies(wm, r"impl\s+ServerCrypto\s*\{", ["encrypt", "write_encrypted_server_header", "encrypt_server_header", "decrypt",
+                "read_and_decrypt_client_header", "decrypt_client_header", "split"], "wrath_header/mod.rs"), "wrath_header/mod.rs: bodies of the ServerCrypto facade methods")
+    def ctor_bodies():
+        out = bodies(ns, r"impl\s+NormalizedString\s*\{", ["from_str", "from_string"], "normalized_string.rs")
+        for hdr, nm in ((r"impl\s+TryFrom<&str>\s+for\s+NormalizedString\s*\{", "TryFrom<&str>::try_from"), (r"impl\s+TryFrom<String>\s+for\s+NormalizedString\s*\{", "TryFrom<String>::try_from"),
+                        (r"impl\s+Display\s+for\s+NormalizedString\s*\{", "Display::fmt")):
+            out.append(nm + ": " + re.sub(r"\s+", "", fn_body(impl_block(ns, hdr), nm.split("::")[1], "normalized_string.rs")))
+        return out
+    layout_put("nstrConstructorBodies", ctor_bodies, "normalized_string.rs: bodies of from_str / from_string / the TryFrom impls / Display")
+    def world_calls(text, what):
+        out = []
+        for m in re.finditer(r"(\w+)\s*=\s*calculate_world_server_proof\s*\(", text):
+            arg, _ = split_args(text, m.end() - 1)
+            # which method the call is in
+            fm = None
+            for f in re.finditer(r"fn\s+(\w+)", text[:m.start()]):
+                fm = f.group(1)
+            out.append("%s: %s=(%s)" % (fm, m.group(1), re.sub(r"\s+", "", arg)))
+        if not out:
+            die("no calculate_world_server_proof call in " + what)
+        return out
+    layout_put("worldProofCallsVanilla", lambda: world_calls(van, "vanilla_header/mod.rs"), "vanilla_header/mod.rs: calls of calculate_world_server_proof (enclosing fn, bound name, arguments)")
+    layout_put("worldProofCallsTbc", lambda: world_calls(tbm, "tbc_header/mod.rs"), "tbc_header/mod.rs: calls of calculate_world_server_proof")
+    layout_put("worldProofCallsWrath", lambda: world_calls(wm, "wrath_header/mod.rs"), "wrath_header/mod.rs: calls of calculate_world_server_proof")
+
     # semantics the model takes from `#[derive(..)]`: Clone is a field-wise copy, == / Ord / Hash are structural over all fields,
     # nothing runs on drop, Default is what the listed impls say.  The translator lists (a) every hand-written impl of one of those
     # traits and (b) the derive list of every struct / enum, for the non-test part of every source file
